@@ -6,12 +6,13 @@ usage: seedrun.py <seedname|clean> <CHECK-ID> [<CHECK-ID>...]   (env VERIF_TIER 
 import os, shutil, subprocess, sys, tempfile, time
 name = sys.argv[1]
 checks = sys.argv[2:]
-base = tempfile.mkdtemp(prefix="sr-%s-" % name)
+base = tempfile.mkdtemp(prefix="sr-%s-" % name.replace(":", "-"))
 repo = os.path.join(base, "repo")
 snap = os.path.join(base, "verif")
-subprocess.check_call(["git", "-C", "/repo", "worktree", "add", "-q", "--detach", repo, "HEAD"])
+at = name.split(":", 1)[1] if name.startswith("commit:") else "HEAD"
+subprocess.check_call(["git", "-C", "/repo", "worktree", "add", "-q", "--detach", repo, at])
 try:
-    if name != "clean":
+    if name != "clean" and not name.startswith("commit:"):
         patch = "/verif/seeded/%s/patch.diff" % name
         subprocess.check_call(["git", "-C", repo, "apply", patch])
     os.makedirs(snap)
